@@ -481,6 +481,16 @@ def _fresh_context(prog, M, T, f, fc, call, S):
                 env_[n.targets[0].id] = ev.eval(n.value, fc, env_)
             except Exception:  # noqa: BLE001
                 pass
+        elif isinstance(n.value, ast.Call):
+            # a template handed out by a helper (`tmpl = CT_Shape._textbox_sp_tmpl()`): kept when it evaluates to a string
+            try:
+                from sa.strabs import S as _AS
+
+                v_ = ev.eval(n.value, fc, env_)
+                if isinstance(v_, _AS):
+                    env_[n.targets[0].id] = v_
+            except Exception:  # noqa: BLE001
+                pass
     v = ev.eval(val, fc, env_)
     tmpl = None
     if isinstance(v, tuple) and v and v[0] == "parsed" and isinstance(v[1], AS):
